@@ -10,7 +10,7 @@ from odml.section import BaseSection
 from odml.property import BaseProperty
 
 MAX_OBJECTS = 400
-MAX_DEPTH = 60
+MAX_DEPTH = 400       # no chain without a cycle is longer than MAX_OBJECTS
 
 
 def kind_of(obj):
